@@ -150,6 +150,46 @@ func c18Handmade(c *core.Ctx, lfsBin string, kind string, idx int) (*apiRun, err
 			run(w.Clone, "lfs", "unlock", "--id", l.ID)
 		}
 		run(w.Clone, "-c", "lfs.locksverify=true", "push", "origin", "main")
+	case "action-401":
+		// the actions carry their own Authorization; the storage and verify end points refuse the first
+		// request for every object with 401 although credentials for the API are at hand (URL userinfo):
+		// a refused action is asked for again through the batch API, never used with other credentials
+		w.Srv.ActionHdr = map[string]string{"Authorization": "Bearer tok-" + kind, "X-Verif-Token": "tok-" + kind}
+		run(w.Clone, "config", "lfs.url", w.Srv.LFSURL(repoName, "alice"))
+		w.Srv.RequireAuth = true
+		var fmu sync.Mutex
+		refused := map[string]bool{}
+		w.Srv.Fault = func(s *lfsserver.Server, k, repo string, rw http.ResponseWriter, r *http.Request, body []byte) bool {
+			if k != "storage-get" && k != "storage-put" && k != "verify" {
+				return false
+			}
+			key := k + " " + r.URL.Path
+			if k == "verify" {
+				key += " " + string(body)
+			}
+			fmu.Lock()
+			first := !refused[key]
+			refused[key] = true
+			fmu.Unlock()
+			if !first {
+				return false
+			}
+			rw.Header().Set("WWW-Authenticate", `Basic realm="verif"`)
+			rw.Header().Set("Lfs-Authenticate", `Basic realm="verif"`)
+			rw.Header().Set("Content-Type", lfsMedia)
+			rw.WriteHeader(401)
+			rw.Write([]byte(`{"message":"token refused"}`))
+			return true
+		}
+		w.Commit("main", "p1", "o1", 0)
+		w.Commit("main", "p2", "o2", 0)
+		run(w.Clone, "push", "origin", "main")
+		cloneB := filepath.Join(root, "cloneB")
+		tmpl := filepath.Join(root, "tmpl")
+		os.MkdirAll(filepath.Join(tmpl, "info"), 0o755)
+		os.WriteFile(filepath.Join(tmpl, "info", "attributes"), []byte("*.bin "+w.Attr+"\n"), 0o644)
+		w.Env.RunIn(root, skipSmudge, nil, 120*time.Second, "git", "clone", "-q", "--template="+tmpl, "-c", "lfs.url="+w.Srv.LFSURL(repoName, "alice"), w.Remote, cloneB)
+		run(cloneB, "lfs", "fetch")
 	case "hashalgo":
 		w.Commit("main", "p1", "o1", 0)
 		w.Srv.Fault = func(s *lfsserver.Server, k, repo string, rw http.ResponseWriter, r *http.Request, body []byte) bool {
@@ -174,6 +214,22 @@ func c18Handmade(c *core.Ctx, lfsBin string, kind string, idx int) (*apiRun, err
 			return true
 		}
 		run(w.Clone, "push", "origin", "main")
+	}
+	if kind == "action-401" {
+		// vacuity control: refusals happened, and transfers went through afterwards
+		n401, n200 := 0, 0
+		for _, q := range w.Srv.Requests() {
+			if q.Kind == "storage-get" || q.Kind == "storage-put" || q.Kind == "verify" {
+				if q.Status == 401 {
+					n401++
+				} else if q.Status == 200 {
+					n200++
+				}
+			}
+		}
+		if n401 < 3 || n200 < 3 {
+			return nil, fmt.Errorf("action-401 scenario is vacuous: %d refused and %d served action requests", n401, n200)
+		}
 	}
 	return &apiRun{name: kind, reqs: w.Srv.Requests()}, nil
 }
@@ -217,8 +273,8 @@ func init() {
 			}
 			runs = append(runs, ar)
 		})
-		kinds := []string{"push-branches", "fetch", "locks", "hashalgo"}
-		core.Parallel(len(kinds), 4, func(i int) {
+		kinds := []string{"push-branches", "fetch", "locks", "hashalgo", "action-401"}
+		core.Parallel(len(kinds), 5, func(i int) {
 			ar, err := c18Handmade(c, lfs, kinds[i], i)
 			mu.Lock()
 			defer mu.Unlock()
